@@ -27,8 +27,9 @@ func init() {
 			p.Runs = []Run{
 				{Name: "counter-d4", Check: "C03", Params: wp{Type: "counter", Alpha: "rich"}, Depth: 4},
 				{Name: "map-d4", Check: "C03", Params: wp{Type: "map", Alpha: "rich"}, Depth: 4},
-				{Name: "list-d3", Check: "C03", Params: wp{Type: "list"}, Depth: 3},
+				{Name: "list-d4", Check: "C03", Params: wp{Type: "list"}, Depth: 4},
 				{Name: "doc-d3", Check: "C03", Params: wp{Type: "doc"}, Depth: 3},
+				{Name: "docarr-d4", Check: "C03", Params: wp{Type: "doc", Prefix: "arr4"}, Depth: 3},
 			}
 		} else {
 			p.BudgetS = 3000
@@ -68,7 +69,10 @@ func init() {
 			p.Runs = []Run{
 				e1run("counter-n2-d5", "counter", 2, 5, "", o, nil, "", 0),
 				e1run("map-n2-d5", "map", 2, 5, "", o, nil, "", 0),
+				e1run("map-n3-d5", "map", 3, 5, "", o, nil, "", 0),
+				e1run("map-live-n3-d5", "map", 3, 5, "", o, nil, "live", 0),
 				e1run("list-n2-d4", "list", 2, 4, "", o, nil, "", 0),
+				e1run("list-live-n3-d4", "list", 3, 4, "", o, nil, "live", 0),
 				e1run("doc-n2-d4", "doc", 2, 4, "", o, nil, "", 0),
 				e1run("doc-n2-d4-order01", "doc", 2, 4, "", o, []int32{0, 1}, "", 0),
 				e1run("docnest-n2-d5-order01", "doc", 2, 5, "nest", o, []int32{0, 1}, "", 0),
@@ -104,7 +108,12 @@ func init() {
 			p.Runs = []Run{
 				e1run("counter-n2-d5", "counter", 2, 5, "", o, nil, "", 0),
 				e1run("map-n2-d5", "map", 2, 5, "", o, nil, "", 0),
+				e1run("map-n3-d5", "map", 3, 5, "", o, nil, "", 0),
+				e1run("map-live-n3-d5", "map", 3, 5, "", o, nil, "live", 0),
 				e1run("list-n2-d4", "list", 2, 4, "", o, nil, "", 0),
+				e1run("list-n3-d4", "list", 3, 4, "", o, nil, "", 0),
+				e1run("list-live-n3-d4", "list", 3, 4, "", o, nil, "live", 0),
+				e1run("doc-live-n3-d3", "doc", 3, 3, "c02", o, nil, "live", 0),
 				e1run("doc-n2-d4", "doc", 2, 4, "c02", o, nil, "", 0),
 			}
 		} else {
